@@ -166,7 +166,7 @@ def oracle_wrapper(case, r):
         elif np.linalg.norm(G.dec(ml[0]) - D @ x) > tolv or np.linalg.norm(G.dec(ml[1]) - D @ x2) > tolv:
             probs.append('matvec on a list of two vectors differs from the dense operator applied to each')
     hk = r.get('hooks_list')
-    if not isinstance(hk, dict) or 'error' in hk:
+    if hk is None or not isinstance(hk, dict) or 'error' in hk:
         probs.append('iadd_prefactor_other / iscale_prefactor on lists: %s' % (hk,))
     else:
         for a, b in zip(hk['w'] + hk['v'], hk['ref'] + hk['vref']):
@@ -284,6 +284,9 @@ def oracle_flateig(case, r):
             return probs, info
         if cs is None and case['use_setter'] and r.get('compact0') and "Can't use `compact_flat`" in r['use_error']:
             info['rejected'] = True     # documented: compact flat vectors need one charge sector
+            return probs, info
+        if cs is None and case.get('ctor_defaults') and 'Label not found: None' in r['use_error']:
+            info['known'] = 'FlatLinearOperator(npc_matvec, leg, dtype) [vec_label=None] with charge_sector=None: matvec raised ' + r['use_error']
             return probs, info
         probs.append('FlatLinearOperator matvec / charge_sector setter raised ' + r['use_error'])
         return probs, info
@@ -439,6 +442,15 @@ def oracle_arpack(case, r):
         want_labels = case['label_order']
     sc = max(1.0, np.linalg.norm(Md, 2))
     lam = np.linalg.eigvalsh(Md)
+    # a guess inside an invariant subspace (product guess of an operator that conserves the charge of each leg separately, unit vectors of
+    # a block-diagonal sector) confines the Lanczos iteration to it: the smallest eigenvalue there is accepted as well
+    g = G.dec(r['guess']).reshape(-1)[I] if 'guess' in r else G.start_vector(spec, M)[I]
+    Vg, dg, _ = krylov_basis(Md, g, len(I))
+    if 0 < dg < len(I):
+        Tg = Vg.conj().T @ Md @ Vg
+        lam_inv = np.linalg.eigvalsh((Tg + Tg.conj().T) / 2)[0]
+        if abs(r['E'] - lam_inv) < abs(r['E'] - lam[0]):
+            lam = np.array([lam_inv])
     if r['labels'] != want_labels:
         probs.append('lanczos_arpack: labels of the result %s, of the guess %s' % (r['labels'], want_labels))
     if abs(r['E'] - lam[0]) > tolf * sc or r['E_imag'] != 0:
@@ -588,7 +600,7 @@ def ritz_arnoldi(Ms, v0s, N, which_key, E_run, xs, tol, scale, herm):
         # judged only when the requested Ritz values are separated from all others
         ths = sorted(th.real)
         gap = min([b - a for a, b in zip(ths, ths[1:])] or [scale])
-        gtol = max(1e-6, 1e-10 * scale / max(1e-300, gap), 1e3 * tol / scale)     # (tol: conditioning of the Krylov basis)
+        gtol = max(1e-6, 1e-10 * scale / max(1e-300, gap), 100 * tol / max(1e-300, gap))     # (tol: conditioning of the Krylov basis)
         X = np.array(xs[:k]).T
         gd = np.linalg.norm(X.conj().T @ X - np.eye(k))
         if gap > 1e-6 * scale:
